@@ -90,3 +90,5 @@ func defaultPlant(r *kernel.Rand) world.PlantSpec {
 	start := r.Range(10, 60)
 	return world.PlantSpec{MaxRpm: r.Range(1200, 3000), StartThr: start, StopThr: start - r.Range(0, 8), TauMs: r.Range(100, 1500), InitRpm: 900}
 }
+
+func jsonUnmarshal(s string, v any) error { return json.Unmarshal([]byte(s), v) }
